@@ -588,6 +588,93 @@ def rep_case(args):
     return (role, name, n, worst, conn._state.name, viol)
 
 
+# ------------------------------------------------------------- connection-ID limit grid
+CID_LIMIT_ERR = 9
+
+
+def ncid_grid_cases():
+    """(role, frames): every sequence of one to three NEW_CONNECTION_ID frames with fresh sequence numbers around the
+    limit boundary.  The harness peer has issued IDs 0..7 during the handshake: the victim starts exactly full."""
+    out = []
+    alpha = [(sq, rpt) for sq in (8, 9, 10) for rpt in (0, 1, 2, 3, sq)]
+    for role in ("server", "client"):
+        for a in alpha:
+            out.append((role, (a,)))
+            for b in alpha:
+                if b[0] == a[0]:
+                    continue
+                out.append((role, (a, b)))
+                for c in alpha:
+                    if c[0] not in (a[0], b[0]):
+                        out.append((role, (a, b, c)))
+    return out
+
+
+def ncid_grid_chunk(cases):
+    """Reference: RFC 9000 5.1.1/5.1.2/19.15 - active = issued and not retired by Retire Prior To; more than the
+    advertised active_connection_id_limit AFTER adding and retiring is CONNECTION_ID_LIMIT_ERROR, anything else legal."""
+    res = []
+    for role, frames in cases:
+        bot = make_bot(role)
+        conn = bot.E.conn
+        limit = conn._local_active_connection_id_limit
+        # what the harness peer issued during the handshake, as the victim recorded it (self-check: exactly full)
+        active = {conn._peer_cid.sequence_number} | {c.sequence_number for c in conn._peer_cid_available}
+        if active != set(range(limit)):
+            raise core.HarnessError("ncid_limit_grid expects a victim holding IDs 0..%d, it holds %r" % (limit - 1, sorted(active)))
+        rpt_max = 0
+        viol = None
+        outcome = []
+        for (sq, rpt) in frames:
+            rpt_max = max(rpt_max, rpt)
+            active = {a for a in active if a >= rpt_max}
+            if sq >= rpt_max:
+                active.add(sq)
+            legal = len(active) <= limit
+            r = bot.send([{"t": "NEW_CONNECTION_ID", "seq": sq, "rpt": rpt, "cid": (1000 + sq).to_bytes(8, "big"), "token": bytes([sq]) * 16}])
+            closed = conn._state.name != "CONNECTED"
+            cc = r.frames("CONNECTION_CLOSE")
+            outcome.append((legal, closed, cc[0]["err"] if cc else None))
+            if legal and closed:
+                viol = ({"monitor": "accused_compliant_peer", "move": "ncid_limit_grid"},
+                        "E closed (%s) on NEW_CONNECTION_ID seq %d retire-prior-to %d (frames so far %r, IDs 0..%d issued before): %d "
+                        "active IDs remain, advertised limit %d" % (cc[0] if cc else conn._state.name, sq, rpt, frames, limit - 1,
+                                                                   len(active), limit))
+            elif not legal and (not closed or not cc or cc[0]["err"] != CID_LIMIT_ERR):
+                viol = ({"monitor": "limit.connection_ids_not_enforced"},
+                        "NEW_CONNECTION_ID seq %d retire-prior-to %d (frames so far %r, IDs 0..%d issued before) leaves %d active IDs, "
+                        "limit %d: %s" % (sq, rpt, frames, limit - 1, len(active), limit,
+                                          "accepted" if not closed else "closed with %r" % (cc[0] if cc else None)))
+            if closed or viol:
+                break
+        if viol is None:
+            try:
+                bot.drive_to_end()
+            except core.HarnessError:
+                raise
+            except Exception as e:  # noqa
+                viol = ({"monitor": "api_exception", "exc": type(e).__name__, "menu": "ncid_limit_grid"}, "%s: %s" % (type(e).__name__, e))
+        res.append(((role, frames), tuple(outcome), viol))
+    return res
+
+
+def run_ncid_grid(ctx):
+    cases = ncid_grid_cases()
+    chunks = [cases[i:i + 40] for i in range(0, len(cases), 40)]
+    outs = set()
+    n = 0
+    for chunk in core.pmap(ncid_grid_chunk, chunks):
+        for case, outcome, viol in chunk:
+            n += 1
+            outs.add(outcome)
+            if viol:
+                ctx.violation(dict(viol[0], role=case[0]), viol[1] + " [role %s]" % case[0],
+                              {"part": "ncid_limit_grid", "case": case})
+    if not any(o and o[-1][0] is False for o in outs) or not any(o and all(x[0] for x in o) for o in outs):
+        raise core.HarnessError("ncid_limit_grid vacuous: %r" % sorted(outs, key=repr)[:6])
+    ctx.part("ncid_limit_grid", evaluations=n, transitions=n, states=n, distinct_nontrivial=len(outs))
+
+
 REP = ["ncid_below_rpt_burst", "ncid_dup_after_local_retire1", "ncid_dup_after_local_retire2", "ncid_dup_after_local_retire3", "crypto_holes", "path_challenges", "ncid_retire_prior_to", "ncid_no_ack", "local_challenges",
        "never_finished_streams"]
 
@@ -603,6 +690,7 @@ def run(ctx):
         run_bfs(ctx, "client", "full", 2, "client_full_d2")
         run_bfs(ctx, "server", "core", 4, "server_core_d4")
         run_bfs(ctx, "client", "core", 3, "client_core_d3")
+    run_ncid_grid(ctx)
     reps = core.pmap(rep_case, [(r, n) for r in ("server", "client") for n in REP])
     for role, name, n, worst, state, viol in reps:
         ctx.part("rep_%s_%s" % (role, name), evaluations=n, transitions=n, states=1, worst=worst, final_state=state,
@@ -628,6 +716,15 @@ def run(ctx):
 
 def replay(ctx, obj):
     rp = obj["replay"]
+    if rp.get("part") == "ncid_limit_grid":
+        role, frames = rp["case"]
+        (_, outcome, viol), = ncid_grid_chunk([(role, tuple(tuple(f) for f in frames))])
+        print("  IDs 0..7 issued, then %s -> (legal, closed, error) %s" % (frames, list(outcome)))
+        if viol:
+            print("VIOLATION property=C07 replay=(replayed): %s" % viol[1])
+            return 1
+        print("no violation on replay")
+        return 0
     if "menu" in rp:
         r = rep_case((rp["role"], rp["menu"]))
         print(r)
